@@ -323,3 +323,24 @@ func (t *Transfer) ReadAllUntilDone(d time.Duration) ([]byte, bool) {
 	ok := t.WaitDone(d)
 	return t.Conn.Out(), ok
 }
+
+// CallDirect sends a request and waits for its reply on this connection only, without waiting for the rest of the
+// server to become quiescent (used where the next request must follow the reply immediately).
+func (c *Client) CallDirect(typ int, fields ...refcodec.Field) (refcodec.Tran, bool) {
+	id := c.Send(typ, fields...)
+	deadline := time.Now().Add(Watchdog)
+	scanned := 0
+	for time.Now().Before(deadline) {
+		in := c.Inbox()
+		for ; scanned < len(in); scanned++ {
+			if in[scanned].IsReply == 1 && in[scanned].ID == id {
+				return in[scanned], true
+			}
+		}
+		if c.Conn.HandlerDone() {
+			return refcodec.Tran{}, false
+		}
+		time.Sleep(20 * time.Microsecond)
+	}
+	return refcodec.Tran{}, false
+}
